@@ -16,6 +16,8 @@ import (
 // C05 — Equal / IsIdentity are representation-independent.
 
 type c05Case struct {
+	// Conc != 0: a concurrent batch (8 goroutines on objects they own) derived from this seed; other fields unused.
+	Conc uint64 `json:"concurrent_seed,omitempty"`
 	A    mon.ElemCase `json:"a"`
 	B    mon.ElemCase `json:"b"`
 	Rel  string       `json:"rel"`
@@ -34,7 +36,7 @@ func init() {
 			"" +
 			"Further relation classes: distinct points on a common line of slope ±1, ±2, ±1/2 through P (equal x+y, x-y, ... : what a folded comparison cannot tell apart); both operands scaled by factors whose stored form equals the stored form of 1 in three limbs (what a limb-dropping 'z == 1' fast path confuses with affine). " +
 			"History cases: operand A is an object that held another value, was compared, and was then driven to its value through each mutator of the API. " +
-			"non-trivial = operands in different representations or different values; distinct by the whole case.",
+			"non-trivial = operands in different representations or different values; distinct by the whole case. Plus concurrent batches: 8 goroutines run the operations simultaneously on objects they own, each result judged against the oracle.",
 		NewCase:  func() any { return &c05Case{} },
 		Generate: c05Generate,
 		Run:      c05Run,
@@ -48,6 +50,8 @@ func init() {
 }
 
 func c05Generate(c *mon.Ctx) {
+	concBatches(c, c.N(6, 300), func(seed uint64) any { return &c05Case{Conc: seed} })
+
 	pool := gen.NewPool(c.SharedRng("pool"), 8)
 	sr := c.SharedRng("structured")
 
@@ -190,6 +194,11 @@ func c05Generate(c *mon.Ctx) {
 
 func c05Run(c *mon.Ctx, csAny any) {
 	cs := csAny.(*c05Case)
+
+	if cs.Conc != 0 {
+		c05RunConc(c, cs.Conc)
+		return
+	}
 	if cs.Move != nil {
 		cs.A = mon.ElemCase{P: cs.Move.To, R: mon.ReprCase{Kind: "moved:" + cs.Move.Via, L: "1"}}
 	}
